@@ -89,7 +89,7 @@ def collision_knobs(rng):
 
 
 def model_projects(chk, rng):
-    n = 3 if chk.tier == "quick" else 14
+    n = 5 if chk.tier == "quick" else 16
     out = []
     # the refutation witness of Props/C12.v, as a real project, always first
     out.append(("witness", {"src/a.f90": "module ma\n  integer :: x\n    !! doc of x in a\nend module ma\n",
@@ -105,17 +105,23 @@ def model_projects(chk, rng):
 
 
 def model_correspondence(chk, rng):
+    import multiprocessing
+    from concurrent.futures import ProcessPoolExecutor
     cases, info = [], []
+    jobs = []
     for kind, files, meta in model_projects(chk, rng):
         order0 = fortran_files(files)
         opts = {"search": rng.choice(["true", "false"]), "incl_src": rng.choice(["true", "false"])}
-        runs = [R.traced_run(files, order0, opts)]
+        jobs.append((kind, files, meta, order0, opts, perms_for(rng, len(order0), chk.tier)))
+    with ProcessPoolExecutor(max_workers=8, mp_context=multiprocessing.get_context("fork")) as ex:
+        futs = [ex.submit(R.trace_project, files, order0, perms, opts)
+                for kind, files, meta, order0, opts, perms in jobs]
+        traced = [f.result() for f in futs]
+    for (kind, files, meta, order0, opts, perms), runs in zip(jobs, traced):
         if runs[0]["err"]:
             chk.count(("model-invalid", tuple(order0)), nontrivial=False)
             chk.notes.append(f"FORD rejected a generated project ({kind}): {runs[0]['err']}")
             continue
-        for p in perms_for(rng, len(order0), chk.tier):
-            runs.append(R.traced_run(files, [order0[i] for i in p], opts))
         errs = {r["err"] for r in runs}
         if errs != {None}:
             chk.violation("failing-input", {"what": "FORD fails under one enumeration order and not under another",
@@ -173,7 +179,7 @@ def model_correspondence(chk, rng):
 def graph_emission(chk, rng):
     import ford.graphs as fg
     cases, info = [], []
-    nproj = 2 if chk.tier == "quick" else 10
+    nproj = 3 if chk.tier == "quick" else 12
     orig_flag = fg.graphviz_installed
     orig_add = fg.FortranGraph.add_to_graph
     log = []
@@ -231,7 +237,10 @@ def graph_emission(chk, rng):
 
 # ----------------------------------------------------------------------------- (b) real runs
 
-def mask(tree):
+def mask(tree, opts=None):
+    """the creation timestamp is masked only when the project enables it explicitly"""
+    if not opts or opts.get("print_creation_date") != "true":
+        return tree
     return {p: (DATE.sub(b" on <DATE> ", d) if p.endswith(".html") else d) for p, d in tree.items()}
 
 
@@ -258,7 +267,8 @@ def e2e_plan(chk, rng):
     """-> list of (name, files, meta, options, [run specs]); a run spec is (label, seed, extra options, stale)"""
     quick = chk.tier == "quick"
     plan = []
-    flags = [dict(), dict(clash=True), dict(multiuse=True), dict(clash=True, modclash=True, multiuse=True)]
+    flags = [dict(), dict(clash=True), dict(multiuse=True), dict(clash=True, modclash=True, multiuse=True),
+             dict(), dict(clash=True, multiuse=True)]
     if not quick:
         flags = flags * 4 + [dict(children=True), dict(clash=True, children=True, multiuse=True)] * 2
     for i, fl in enumerate(flags):
@@ -286,47 +296,44 @@ def e2e_plan(chk, rng):
 
 def e2e(chk, rng):
     plan = e2e_plan(chk, rng)
-    stale_tree = None
-    jobs = []
-    for name, files, meta, opts, runs in plan:
-        for spec in runs:
-            jobs.append((name, files, opts, spec))
-
     other = P.other_project(rng)
+    rc0, _, other_tree, _ = R.subprocess_run(other, {}, 1)
+    measure = 2 if chk.tier == "quick" else 6
 
-    def one(job):
-        name, files, opts, (label, seed, extra, stale) = job
-        o = dict(opts)
-        o.update(extra)
-        st = None
-        if stale == "other":
-            rc0, _, t0, _ = R.subprocess_run(other, {}, 1)
-            st = t0
-        elif stale == "same":
-            st = "same"
-        t = time.time()
-        rc, out, tree, _ = R.subprocess_run(files, o, seed, stale=st)
-        return rc, out, tree, time.time() - t
+    def one(entry):
+        idx, (name, files, meta, opts, runs) = entry
+        res, orders = [], None
+        with F.Work() as w:
+            pd = R.ProjectDir(w.root, name, files)
+            for (label, seed, extra, stale) in runs:
+                o = dict(opts)
+                o.update(extra)
+                t = time.time()
+                rc, out, tree, _ = pd.run(o, seed, stale=(other_tree if stale == "other" else stale))
+                res.append((rc, out, tree, time.time() - t))
+            if idx < measure:
+                orders = {s: R.enumeration_order(pd.root, s) for s in sorted({r[1] for r in runs})}
+        return res, orders
     with ThreadPoolExecutor(max_workers=8) as ex:
-        results = list(ex.map(one, jobs))
+        per_project = list(ex.map(one, enumerate(plan)))
+    results = [r for res, _ in per_project for r in res]
+    jobs = results
+    for (name, *_), (_, orders) in zip(plan, per_project):
+        if orders:
+            chk.extra.setdefault("enumeration_order_by_seed", []).append({"project": name, "orders": orders})
     chk.extra["e2e_runs"] = len(jobs)
     chk.extra["e2e_mean_run_s"] = round(sum(r[3] for r in results) / max(1, len(results)), 2)
     it = iter(results)
     explained = {}
-    measured = 0
     for name, files, meta, opts, runs in plan:
         rs = [next(it) for _ in runs]
         base_rc, base_out, base_tree, _ = rs[0]
-        base_tree = mask(base_tree)
+        base_tree = mask(base_tree, opts)
         s0 = runs[0][1]
         if base_rc != 0:
             chk.count(("e2e-invalid", name), nontrivial=False)
             chk.notes.append(f"e2e {name}: FORD failed on a generated project: {base_out[-300:]}")
             continue
-        if measured < (2 if chk.tier == "quick" else 6):
-            orders = {s: R.enumeration_order(files, opts, s) for s in sorted({r[1] for r in runs})}
-            chk.extra.setdefault("enumeration_order_by_seed", []).append({"project": name, "orders": orders})
-            measured += 1
         for (label, seed, extra, stale), (rc, out, tree, _) in zip(runs[1:], rs[1:]):
             same_seed = seed == s0
             o = dict(opts)
@@ -338,7 +345,7 @@ def e2e(chk, rng):
                                                 "run": label, "seed": seed, "options": o, "log": out[-1500:],
                                                 "files": files}, True)
                 continue
-            cl = R.classify(base_tree, mask(tree), applicable(meta, o, same_seed))
+            cl = R.classify(base_tree, mask(tree, opts), applicable(meta, o, same_seed))
             if cl is None:
                 continue
             chk.disagreements += 1
@@ -372,9 +379,7 @@ WIT_KIDS = {"src/a.f90": "module ma\n  type :: base\n    integer :: i\n  end typ
 
 def differ(files, opts, seeds, kinds, attempts):
     """run until two runs differ; -> (still fails, explained by the given findings only)"""
-    specs = [(files, opts, s) for s in seeds][:attempts]
-    with ThreadPoolExecutor(max_workers=8) as ex:
-        trees = list(ex.map(lambda a: R.subprocess_run(a[0], a[1], a[2]), specs))
+    trees = R.subprocess_runs(files, [(opts, s, None) for s in seeds][:attempts])
     ok = [mask(t[2]) for t in trees if t[0] == 0]
     if len(ok) < 2:
         return False, True, "runs failed"
@@ -401,8 +406,12 @@ def findings(chk, rng):
         ("toposort-id-order", WIT_TWINS, {}, [3] * 8, ["toposort-id-order"]),
         ("inheritedby-children-order", WIT_KIDS, {"graph": "true"}, list(range(1, 6)), ["inheritedby-children-order"]),
     ]
-    for key, files, opts, seeds, kinds in checks:
-        fails, clean, detail = differ(files, opts, seeds, kinds, 8 if quick else 12)
+    with ThreadPoolExecutor(max_workers=8) as ex:
+        outcomes = list(ex.map(lambda c: differ(c[1], c[2], c[3], c[4], 6 if quick else 8), checks))
+        pool_run = ex.submit(R.subprocess_run, WIT_KIDS,
+                             {"graph": "true", "graph_dir": "./graphs", "parallel": "2"}, 1)
+        rc, out, tree, _ = pool_run.result()
+    for (key, files, opts, seeds, kinds), (fails, clean, detail) in zip(checks, outcomes):
         chk.count(("finding", key), sample={"finding": key, "still_differs": fails, "first_difference": detail})
         if not clean:
             chk.violation("failing-input", {"what": f"the witness of finding {key} differs in more than the "
@@ -411,7 +420,6 @@ def findings(chk, rng):
             chk.violation("failing-input", {"what": f"unrecorded nondeterminism ({key})", "files": files,
                                             "first_difference": detail}, True)
     # graph_dir + process pool
-    rc, out, tree, _ = R.subprocess_run(WIT_KIDS, {"graph": "true", "graph_dir": "./graphs", "parallel": "2"}, 1)
     crashed = rc != 0 and "pickle" in out
     chk.count(("finding", "graph-dir-parallel-pickle"), sample={"rc": rc, "log_tail": out[-200:]})
     if rc != 0 and not crashed:
